@@ -51,6 +51,7 @@ from dashlive.utils.timezone import UTC
 from .base import HTMLHandlerBase, RequestHandlerBase, DeleteModelBase
 from .csrf import CsrfProtection
 from .decorators import (
+    rejects_malformed_payload,
     uses_media_file, current_media_file, login_required,
     uses_stream, current_stream, csrf_token_required
 )
@@ -245,6 +246,7 @@ class EditMedia(HTMLHandlerBase):
         return flask.render_template('media/edit_media.html', **context)
 
     @csrf_token_required(service='files', next_url=next_url)
+    @rejects_malformed_payload
     def post(self, spk: int, mfid: int) -> flask.Response:
         mf = current_media_file
         if mf.representation is None:
@@ -675,6 +677,7 @@ class ValidateMediaChanges(HTMLHandlerBase):
         login_required(permission=models.Group.MEDIA),
     ]
 
+    @rejects_malformed_payload
     def post(self, spk: int, mfid: int) -> flask.Response:
         if not is_ajax():
             return flask.make_response('Invalid request', 400)
